@@ -121,6 +121,31 @@ def run(ctx):
     # one tiny raster whose cases are also run through the TLA+ block model (drift check)
     small = make_rasters(rng, ctx.pick(2, 8), [(3, 4), (4, 3), (3, 3)])
     np_jobs, dk_jobs, meta = [], [], []
+    # lattice-exact family: non-binary cell size (0.2, 0.1, ...) with max_distance an exact multiple of it that is
+    # representable in single precision (1.0, 2.0, 3.0): a target exactly max_distance away must be found
+    for _ in range(ctx.pick(4, 16)):
+        sc, m0 = rng.choice([(0.2, 5), (0.1, 10), (0.4, 5), (0.6, 5), (0.2, 10)])
+        H, W = (m0 + rng.randrange(1, 4), m0 + rng.randrange(1, 4))
+        metric = rng.choice(["E", "M"])
+        xs = list(range(W))
+        ys = list(range(H))[::-1] if rng.random() < 0.5 else list(range(H))
+        mask = [[0] * W for _ in range(H)]
+        r0, c0 = rng.randrange(H), rng.randrange(W)
+        mask[r0][c0] = 1
+        # a second target exactly m0 cells away from some cell, axis-aligned
+        mask[(r0 + m0) % H if H > m0 else r0][c0] = 1
+        if rng.random() < 0.5:
+            mask[rng.randrange(H)][rng.randrange(W)] = 1
+        vals = [[(r * W + c + 1) * mask[r][c] for c in range(W)] for r in range(H)]
+        base = {"H": H, "W": W, "vals": vals, "xs": xs, "ys": ys, "metric": metric, "max": m0 * sc, "scale": sc,
+                "bound2": 2 * m0 * m0, "maxn": m0 * m0, "targets": [], "events": False, "exact": 0}
+        np_jobs.append(dict(base, tag="numpy"))
+        npi = len(np_jobs) - 1
+        allch = [(rc, rs, cc, cs) for rc, rs in chunkings(H) for cc, cs in chunkings(W)]
+        ras = {"H": H, "W": W}
+        for rc, rs, cc, cs in rng.sample(allch, ctx.pick(6, 40)) + [allch[-1]]:
+            dk_jobs.append(dict(base, chunks=[rs, cs], tag="dask", scheduler="synchronous"))
+            meta.append((npi, ("int", m0), rc, cc, False, ras))
     for ras, is_small in [(r, False) for r in rasters] + [(r, True) for r in small]:
         H, W = ras["H"], ras["W"]
         ks = ks_for(rng, ras, 3) + [None] + ([corner2(ras["metric"], ras["xs"], ras["ys"]) + 1] if rng.random() < 0.5 else [])
@@ -148,7 +173,7 @@ def replay(ctx, rec):
     job = dict(rec["case"]["job"])
     base = {k: v for k, v in job.items() if k not in ("chunks", "scheduler", "tag")}
     c = rec["case"]
-    k = None if c["k"] == -1 else c["k"]
+    k = None if c["k"] == -1 else (("int", c["k"]) if c.get("kint") else c["k"])
     ras = {"H": c["H"], "W": c["W"]}
     evaluate(ctx, random.Random(0), [dict(base, tag="numpy")], [job],
              [(0, k, c["rowcuts"], c["colcuts"], c["H"] * c["W"] <= 12, ras)], compiled=0)
@@ -178,7 +203,8 @@ def evaluate(ctx, rng, np_jobs, dk_jobs, meta, compiled=None):
             ctx.violation("proximity-dask:call-raised", "call_raised", dk["job"], dk["error"])
             continue
         cases.append({"H": dk["H"], "W": dk["W"], "img": dk["img"], "xs": dk["xs"], "ys": dk["ys"],
-                      "metric": dk["metric"], "k": -1 if k is None else k, "bound2": dk["bound2"], "maxn": dk["maxn"],
+                      "metric": dk["metric"], "k": -1 if k is None else (k[1] if isinstance(k, tuple) else k),
+                      "kint": 1 if isinstance(k, tuple) else 0, "bound2": dk["bound2"], "maxn": dk["maxn"],
                       "np": {"prox": nc_["prox"], "alloc": nc_["alloc"], "dir": nc_["dir"]},
                       "dk": {"prox": dk["prox"], "alloc": dk["alloc"], "dir": dk["dir"]},
                       "overlap": dk["overlap"], "lazy": int(dk["lazy_ok"]),
